@@ -31,13 +31,13 @@ ALL_S = ["on", "off", "pb_on", "pb_off", "r0", "r1", "rmid", "c_DROP_n", "c_DROP
          "c_RO_n", "c_RO_0", "c_RO_2", "c_RS_n", "c_RS_0", "c_RS_2"]
 ALL_F = [0, 1, 2, 3, 255]
 ALL_FORMS = ["valid", "zero", "notrace", "nospan"]
-INVS = ("TypeOK SameTraceAsParent RootHasNoParent FreshSpanId FlagsLevel1Only SampledIsDecision "
+INVS = ("TypeOK StackOK SameTraceAsParent RootHasNoParent FreshSpanId FlagsLevel1Only SampledIsDecision "
         "DroppedNeverExported OnlyListedDeviations")
-PROPS = "PROPERTIES ThreadsIsolated StartRules"
-ACTIONS = ["MakeRemote", "DoStart", "DoWith", "ReleaseScope", "DoEnd"]
+PROPS = "PROPERTIES ThreadsIsolated StartRules ReleaseUnwindsOnlyAbove"
+ACTIONS = ["MakeRemote", "DoStart", "DoWith", "DoRelease", "DoEnd"]
 WITNESSES = ["Inherit", "InheritRO", "RootOverActive", "RootAndSpan", "ScOverActive", "CtxOverActive",
              "InvalidScFallsBack", "EmptyCtxFallsBack", "NoopParent", "SamplerTS", "ParentTS", "GrandChild",
-             "EndedParent", "CrossThread"]
+             "EndedParent", "CrossThread", "OutOfOrderThenImplicit", "StaleThenImplicit", "CrossReleaseThenImplicit"]
 CFG = """CONSTANTS NThr = %d  MaxEnt = %d  MaxRemote = %d  MaxDepth = %d  MaxOps = %d
           Samplers = {%s}
           RemFlags = {%s}  RemForms = {%s}
@@ -73,7 +73,9 @@ def model_check(ctx, known):
     # (and their sizes do not depend on TLC's multi-worker BFS order)
     runs = [  # (name, shape, samplers, flags, forms, coverage)
         ("1thr-ent3-depth2", (1, 3, 1, 2, 60), s4, [0, 1, 255], ["valid", "zero"], True),
-        ("2thr-ent2-all-samplers", (2, 2, 1, 1, 60), ALL_S, ALL_F, ALL_FORMS, False),
+        ("2thr-ent2-all-samplers", (2, 2, 1, 1, 60), ALL_S, ALL_F if thorough else [0, 1, 255],
+         ALL_FORMS if thorough else ["valid", "zero"], False),
+        ("1thr-ent2-depth3-scopes", (1, 2, 0, 3, 60), ["on", "off"], [1], ["valid"], False),
     ]
     if thorough:
         runs += [
@@ -180,7 +182,11 @@ def generate(ctx, known):
             add(fam, src, bs)
     # (d) witnesses of rare conditions: one BFS prints a shortest behaviour per condition (ideal family)
     wjobs = [("w1", (1, 3, 1, 1, 4), ["on", "off", "c_RO_0"], [1, 255], ["valid", "zero"]),
-             ("w2", (2, 3, 0, 1, 5), ["on"], [1], ["valid"])]
+             ("w2", (2, 3, 0, 1, 5), ["on"], [1], ["valid"]),
+             # scopes R > B > C on one thread, B destroyed before C while R is alive, then an implicit-parent start
+             ("w3", (1, 2, 0, 3, 7), ["on"], [1], ["valid"]),
+             # a Scope created on thread 1 destroyed on thread 2, which has its own active span
+             ("w4", (2, 2, 0, 1, 5), ["on"], [1], ["valid"])]
 
     def wit(j):
         name, shape, ss, fl, fo = j
@@ -188,7 +194,7 @@ def generate(ctx, known):
                  init="InitW")
         return tlc.tlc(MODULE, c, rundir=ctx.rundir.path, workers=1, timeout_s=600, tag=name, xmx="3g")
     wl = {}
-    with cf.ThreadPoolExecutor(max_workers=2) as ex:
+    with cf.ThreadPoolExecutor(max_workers=4) as ex:
         for r in ex.map(wit, wjobs):
             tlc.must_ok(r, "witness generation")
             ctx.add_tlc("witness run", r)
